@@ -43,8 +43,10 @@ def pipe_items(tier, kinds_q, kinds_t=None, k1=True, k1_rules=None, big=True, ge
     from .. import corpus
     from . import configs_k1
 
-    seeds = corpus.seed_ids(("fix", "cls", "gen"))
-    out = universe.zero_dev(seeds + (corpus.seed_ids(("big",)) if big else []))
+    if tier == "quick":
+        out = universe.zero_dev(corpus.seed_ids(("fix", "cls")) + (corpus.seed_ids(("big",)) if big else [])) + universe.zero_dev(corpus.seed_ids(("gen",)), styles=(None, "jcl"))
+    else:
+        out = universe.zero_dev(corpus.seed_ids(("fix", "cls", "gen")) + (corpus.seed_ids(("big",)) if big else []))
     if tier == "quick":
         out += universe.one_dev(corpus.small_slice(max_lines=25), kinds_q)
         if k1:
@@ -60,7 +62,7 @@ def pipe_items(tier, kinds_q, kinds_t=None, k1=True, k1_rules=None, big=True, ge
 
 def bound_text(tier, kinds_q, kinds_t=None):
     return (
-        "0 deviations: all 1906 fix/cls/gen seeds + 23 large examples x {default, jcl, indent_only}; 1 layout deviation ("
+        "0 deviations: all 1906 fix/cls/gen seeds + 23 large examples x {default, jcl, indent_only}" + (" (generated seeds: default and jcl only)" if tier == "quick" else "") + "; 1 layout deviation ("
         + ",".join(kinds_q if tier == "quick" else (kinds_t or kinds_q))
         + ") at every applicable position of "
         + ("the small-seed slice S_q (<=25 lines)" if tier == "quick" else "every fix/cls seed (and S_gen with the quick operator set)")
